@@ -289,3 +289,27 @@ Print Assumptions gen_C17_h_433.
 Print Assumptions gen_C17_h_001.
 Print Assumptions gen_C17_tracker_instance.
 Print Assumptions gen_C17_nick_bijection.
+
+(* generated-code tie, stage 4: the GENERIC handlers of the composed client model.  With tracking on,
+   the Gallina TRANSLATION of h_001 / h_433 is Client.g_001 / g_433 for EVERY state type T and every
+   Tracker record whose Me / NickInfo / ReNick are the functions the generic handlers are
+   instantiated with (Me leaves the state alone; of NickInfo only the new state matters)
+   (Proofs/GenEqClientNick.v). *)
+From Verif Require GenEqClientNick.
+Theorem gen_C17_g_001 : forall (T : Type) (trk : @go_state_Tracker unit unit T) Me_ NickInfo_ ReNick_,
+  (forall t, go_state_Tracker_Me trk t = (t, onick (Me_ t))) ->
+  (forall t a b c d, fst (go_state_Tracker_NickInfo trk t a b c d) = NickInfo_ t a b c d) ->
+  (forall t a b, go_state_Tracker_ReNick trk t a b = (fst (ReNick_ t a b), onick (snd (ReNick_ t a b)))) ->
+  forall s l,
+  go_client_Conn_h_001 trk (onick (Client.g_me s)) (Some (Client.g_trk s)) (l_args l) (l_cmd l) (l_nick l)
+  = GenEqClientNick.of_gout (Client.g_001 Me_ NickInfo_ ReNick_ s l).
+Proof. intros. apply GenEqClientNick.go_h_001_generic; assumption. Qed.
+Theorem gen_C17_g_433 : forall (T : Type) (trk : @go_state_Tracker unit unit T) Me_ ReNick_ new_nick,
+  (forall t, go_state_Tracker_Me trk t = (t, onick (Me_ t))) ->
+  (forall t a b, go_state_Tracker_ReNick trk t a b = (fst (ReNick_ t a b), onick (snd (ReNick_ t a b)))) ->
+  forall s l,
+  go_client_Conn_h_433 trk (onick (Client.g_me s)) new_nick (Some (Client.g_trk s)) (l_args l)
+  = GenEqClientNick.of_gout_out (Client.g_433 Me_ ReNick_ new_nick s l).
+Proof. intros. apply GenEqClientNick.go_h_433_generic; assumption. Qed.
+Print Assumptions gen_C17_g_001.
+Print Assumptions gen_C17_g_433.
